@@ -461,9 +461,19 @@ def noisy_quantile_part(rep, rng, drv, NQ, switches, n_cases, rng_far=None, n_fa
                 rep.violate(what="a documented method raised on an input of the property's domain", error=repr(e), input=inp,
                             call="NoisyQuadraticDistribution.quantile_tuning_curve")
                 continue
-        if np.shape(qt) != (len(ns),) or not np.isscalar(qt_s) or not (float(qt_s) == float(qt[1]) or (qt_s != qt_s and qt[1] != qt[1]) or abs(float(qt_s) - float(qt[1])) <= 1e-8 * S):
-            rep.violate(what="quantile_tuning_curve: array/scalar shapes or values are inconsistent", input=inp,
+        if np.shape(qt) != (len(ns),) or not np.isscalar(qt_s):
+            rep.violate(what="quantile_tuning_curve: array/scalar shapes are inconsistent", input=inp,
                         call="NoisyQuadraticDistribution.quantile_tuning_curve")
+        else:
+            # the scalar call is judged by the property's own clause, like the array call below -- not by equality with the array entry:
+            # numpy's scalar and array `**` may differ in the last bit of the level, which at a level of 1e-11 moves the quantile by more
+            # than any fixed fraction of the scale (found by the thorough tier; both values satisfied F(t) = level to 1e-17)
+            with np.errstate(all="ignore"):
+                f_s = float(d.cdf(qt_s))
+            lv_s = float(mp_level(q, ns[1], eff))
+            if not abs(f_s - lv_s) <= 2e-5:
+                rep.violate(what="F(quantile_tuning_curve(n,q)) differs from the level of the best of n draws by more than 2e-5 (scalar n)",
+                            input=dict(inp, n=C.fhex(ns[1])), expected=lv_s, observed=f_s, call="NoisyQuadraticDistribution.quantile_tuning_curve")
         if not np.array_equal(qt_n, qt_d, equal_nan=True):
             rep.violate(what="minimize=None is not minimize=self.convex", input=inp, call="NoisyQuadraticDistribution.quantile_tuning_curve")
         def spec_nq(kind, n, iv):
